@@ -76,8 +76,10 @@ SPEC = dict(
                    'trusted are the BUILT-IN models used by both sides of every equation: '
                    'Model/Base64.lean and the text built-ins of Model/Address.lean (str.split, int(str[,16]), bytes.fromhex, str(int), bytes.hex, '
                    'base64/binascii are modelled by hand for ASCII text) - tied to the library only by sampled differential correspondence '
-                   '(~150k model requests quick, ~6M thorough: every text produced, every parse result, all 3024 substitutions of 40/2000 '
-                   'addresses, lenient and malformed inputs); crc16 itself is the C18 translation of crc.py (re-proved each run). The tag '
+                   '(~200k model requests quick, ~6M thorough: every text produced, every parse result, all 3024 substitutions of 50/2000 '
+                   'addresses, lenient and malformed inputs; among the addresses ~300 are SOLVED FOR from their text: every str literal of the current '
+                   'address.py planted into the friendly text at start / inside / end / twice and into the raw form, friendly texts over sub-alphabets '
+                   '(hex digits only, letters only, alphanumeric only ...), int literals +-1 as workchain); crc16 itself is the C18 translation of crc.py (re-proved each run). The tag '
                    'arithmetic is regenerated from address.py on every run (Generated/AddrTags.lean): the statements of to_str computing the tag '
                    'byte (0x11 / 0x51, |0x80) and the statements of is_b64 decoding it (test flag = bit 7, bounceable iff the rest is 0x11) are '
                    'proved equal to the model for all flag values and all 256 byte values (c13_src_tag, c13_src_b64_flags) and the hand model '
